@@ -189,6 +189,14 @@ func (e *Exec) builtin(name string, c *ssa.CallCommon, args []Value, fr *frame) 
 				}
 			}
 		}
+		if o, ok := args[0].(Opaque); ok && o.Kind == "coins" {
+			// sdk.Coins used as a slice (range / index): materialise the present denominations
+			sl := e.materializeCoins(o, c.Args[0].Type())
+			if fr != nil {
+				fr.env[c.Args[0]] = sl
+			}
+			return c64(sl.Len)
+		}
 		panic(engineErr("len of %T", args[0]))
 	case "cap":
 		switch x := args[0].(type) {
